@@ -90,5 +90,10 @@ CHECKS = {
   "note": "Trusted: byte/multiset comparison; outputs that legitimately depend on the number of files (file-name grouping, technical-replica rule for novel models) are not compared.",
   "technique": "differential runtime monitoring (equivalent-input executions) + hooked BAM-merge log",
  },
+ "C11": {
+  "text": "Metamorphic runtime check: each world (rich noisy, event world with every left/right-specific alignment artefact in both orientations, noise-free) is run as is, shifted by k in {1,7,255,256,257,1000,4099} and reflected (genome reverse-complemented, annotation mirrored with strands flipped, alignments mirrored with reversed CIGAR and reverse-complemented sequence); shifted outputs must equal the original outputs with k added to every coordinate field, byte for byte; reflected outputs must give every read the same type and isoform/gene sets, flipped strand, the same event multiset after the left/right swap with mirrored coordinates, mirrored corrected alignments, identical reference count tables and, for noise-free inputs, mirrored models and model counts. Worlds stay below the region-splitting thresholds. Sampled worlds.",
+  "note": "Trusted: the input transformation in vlib/transform.py and the output field map (which columns/event payloads are coordinates, which are distances). One recorded known finding (polyA/polyT coordinate convention differs by 1-2 bp) is recognised only when nothing but that coordinate differs.",
+  "technique": "metamorphic differential monitoring (transformed executions vs transformed outputs)",
+ },
 }
 NOT_APPLICABLE = {}
